@@ -766,6 +766,38 @@ def extract_query(repo):
     return '\n'.join(out) + '\n'
 
 
+
+def extract_macro(repo):
+    d = strip_comments(open(os.path.join(repo, 'macros/src/data.rs')).read())
+    out = [HEADER % 'macros/src/data.rs',
+           'From Coq Require Import NArith Bool.\nFrom Gecs Require Import Prim.\nOpen Scope N_scope.\n']
+    body = norm(fn_body(d, 'advance_attribute_id'))
+    pat = (r'let next = \{ if let Some\(archetype_id\) = item\.id\(\) \{ Ok\(archetype_id\) \} else if let Some\(last\) = last \{ '
+           r'if let Some\(next\) = (.+?) \{ Ok\(next\) \} else \{ let span = item\.name\(\)\.span\(\); '
+           r'Err\(syn::Error::new\(span, "attribute id may not exceed 255"\)\) \} \} else \{ Ok\((.+?)\) \} \}\?; '
+           r'if let Some\(name\) = ids\.insert\(next, item\.name\(\)\.to_string\(\)\) \{ Err\(syn::Error::new\( item\.name\(\)\.span\(\), '
+           r'format!\("attribute id \{\} is already assigned to \{\}", next, name,\), \)\) \} else \{ Ok\(Some\(next\)\) \}')
+    m = re.fullmatch(pat, body)
+    if not m:
+        raise ExtractError('advance_attribute_id: unexpected body %r' % body)
+    succ = compile_expr(m.group(1), {'last': 'last'}, 8)
+    first = compile_expr(m.group(2), {}, 8)
+    out.append('(* ids are u8: `last.checked_add(1)` and the first id of a scope *)')
+    out.append('Definition attr_succ (last : N) : option N := %s.' % succ)
+    out.append('Definition attr_first : N := %s.' % first)
+    # the id fields are u8 in DataArchetype / DataComponent / ParseAttributeId
+    for pat2 in (r'pub struct DataArchetype \{ pub id: u8,', r'pub struct DataComponent \{ pub id: u8,'):
+        if not re.search(pat2, norm(d)):
+            raise ExtractError('data.rs: id field is not u8')
+    # evaluate_cfgs: all predicates must be true
+    body = norm(fn_body(d, 'evaluate_cfgs'))
+    if body != 'for cfg in cfgs { let predicate = cfg.predicate.to_string(); if *cfg_lookup.get(&predicate).unwrap() == false { return false; } } true':
+        raise ExtractError('evaluate_cfgs: unexpected body %r' % body)
+    body = norm(fn_body(d, 'contains_component'))
+    if body != 'for component in self.components.iter() { if component.name == name.to_string() { return true; } } false':
+        raise ExtractError('contains_component: unexpected body %r' % body)
+    return '\n'.join(out) + '\n'
+
 def main():
     repo, outdir = sys.argv[1], sys.argv[2]
     os.makedirs(outdir, exist_ok=True)
@@ -774,6 +806,7 @@ def main():
         'ExtrVersion.v': extract_version,
         'ExtrStorage.v': extract_storage,
         'ExtrQuery.v': extract_query,
+        'ExtrMacro.v': extract_macro,
     }
     failed = False
     for name, fn in files.items():
